@@ -38,7 +38,7 @@ def instances(tier, seed):
     for alg, n, bnd, opts in L:
         out.append(dict(name="%s/n%d/%s%s" % (alg, n, bnd, "/" + opts if opts else ""), args=[alg, str(n), bnd, opts],
                         paths=6 if tier == "quick" else 8, base_points=1 if tier == "quick" else 2, flips_per_path=5 if tier == "quick" else 6,
-                        abstract_big=True, max_terms=60, lra_first=True, seed_check=True, z3_timeout_ms=120000 if tier == "quick" else 300000, flip_timeout_ms=1500))
+                        abstract_big=True, max_terms=60, lra_first=True, seed_check=True, z3_timeout_ms=120000, twin_timeout_ms=15000, flip_timeout_ms=1500))
     return out
 
 
@@ -171,29 +171,11 @@ def _relevant_decisions(tr, fnodes, depth=3):
     return sel
 
 
-PRE_RLIMIT = 2000000
+from spec.budget import PRE_RLIMIT, within_budget as _wb
 
 
 def _within_budget(enc, hyps, ob):
-    """pre-check of an inequality obligation: True if it will be decided (proved by the linear relaxation, or decided either way by nlsat within a
-    small deterministic resource limit, or falsified by the path's own seed). What is not decidable within the budget is left out of the claim
-    on that path (counted in the evidence assumptions); a violated obligation is never left out when the seed or nlsat exhibits it."""
-    from engine.driver.core import goal_numeric
-    from engine.driver.solve import Query, run_z3
-    try:
-        hy, go, det = goal_numeric(enc, ob)
-        if hy and not go:
-            return True
-    except (KeyError, OverflowError):
-        pass
-    q = Query(enc, ob.name, hyps + ob.hyps, ob.goal)
-    smt, names = q.smt_linearised()
-    r, _, _ = run_z3(smt, names, rlimit=30000000, seed=1, timeout_ms=0)
-    if r == "unsat":
-        return True
-    smt, names = q.smt()
-    r, _, _ = run_z3(smt, names, rlimit=PRE_RLIMIT, seed=1, timeout_ms=0)
-    return r in ("sat", "unsat")
+    return _wb(enc, hyps, ob)
 
 
 def obligations(enc, inst, tr):
